@@ -823,3 +823,311 @@ def gfi_vmap_repeat(ctx, rule="ROLE-vmap-constructor"):
         ctx.ok(rule, "core.GFI.repeat", "vmap(in_axes=None, axis_size=n): n independent draws with shared arguments")
     else:
         ctx.bad(rule, "core.GFI.repeat", "vmap(in_axes=None, axis_size=n)", f"found {short(s.ret, ev, 200)}", func_loc(ctx, CORE + "GFI.repeat"))
+
+
+# ====================================================================== event-based (rename/temporary/reorder-insensitive) interpreter rules
+PRIMS = {"genjax.pjax.sample_p": "sample", "genjax.pjax.adev_sample_p": "adev_sample", "jax.lax.cond_p": "cond", "jax.lax.scan_p": "scan",
+         "genjax.state.state_p": "state", "genjax.state.namespace_push_p": "push", "genjax.state.namespace_pop_p": "pop"}
+
+
+def guard_kinds(guards):
+    """(positively tested primitive kinds, negatively tested kinds) of an event's guard stack."""
+    pos, neg = set(), set()
+    for c, v in guards:
+        if not isinstance(c, tuple) or (c and c[0] == "loop"):
+            continue
+        ks = {PRIMS[x[1]] for x in subterms(c) if x[0] == "name" and x[1] in PRIMS}
+        (pos if v else neg).update(ks)
+    return frozenset(pos - neg if pos else set()), frozenset(neg)
+
+
+def events_by_kind(s):
+    out = {}
+    for e in s.events:
+        pos, neg = guard_kinds(e[0])
+        in_loop = any(isinstance(c, tuple) and c and c[0] == "loop" for c, _ in e[0])
+        if not in_loop:
+            continue
+        key = pos if pos else (frozenset({"else"}) if neg else frozenset({"common"}))
+        out.setdefault(key, []).append(e)
+    return out
+
+
+def direct_args(t):
+    """Direct operands of a call: positional/keyword arguments and the elements of literal tuple/list arguments."""
+    out = []
+    for a in t[2]:
+        x = a[1] if a[0] == "star" else a
+        out.append(x)
+        if x[0] in ("tuple", "list"):
+            out.extend(x[1])
+    for k, v in t[3]:
+        out.append(v)
+    return out
+
+
+def key_linearity_events(ctx, rule="KEY-linearity"):
+    """Decided on the guarded event log of Seed.eval_jaxpr_seed: in every key-consuming branch the interpreter key is replaced by
+    split(key)[0] and split(key)[1] is handed to exactly one consumer; the interpreter key itself is read by nothing but its split."""
+    ev = mk_ev(ctx)
+    dotted = PJ + "Seed.eval_jaxpr_seed"
+    s = summarize(ctx, ev, dotted)
+    loc = func_loc(ctx, dotted)
+    KEY = ("attr", SELF, "key")
+    by = events_by_kind(s)
+    branches = {k: v for k, v in by.items() if k & {"sample", "adev_sample", "cond", "scan"}}
+    ctx.need(len(branches) == 3, f"KEY-linearity: {len(branches)} key-consuming branches found (floor 3): {[sorted(k) for k in by]}")
+    for kind, evs in sorted(branches.items(), key=lambda kv: sorted(kv[0])):
+        construct = f"pjax.Seed.eval_jaxpr_seed[{'+'.join(sorted(kind))}]"
+        split = None
+        for e in evs:
+            if e[1] == "call" and e[2][1][0] == "name" and e[2][1][1] in ("jax.random.split",) and e[2][2][:1] == (KEY,):
+                split = e[2]
+        stores = [e for e in evs if e[1] == "store" and e[2][0] == KEY]
+        if split is None or len(stores) != 1 or stores[0][2][1] != ("idx", split, C(0)):
+            ctx.bad(rule, construct, "self.key, sub_key = split(self.key)", "the interpreter key is not advanced by split(self.key)[0] in this branch "
+                    f"(stores: {[short(x[2][1], ev, 80) for x in stores]})", loc)
+            continue
+        sub = ("idx", split, C(1))
+        consumers = [e[2] for e in evs if e[1] == "call" and e[2] is not split and any(a == sub for a in direct_args(e[2]))]
+        consumers = list(dict.fromkeys(consumers))
+        raw_reads = [e[2] for e in evs if e[1] == "call" and e[2] != split and any(a == KEY for a in direct_args(e[2]))]
+        if raw_reads:
+            ctx.bad(rule, construct, "interpreter key read only by its own split", f"self.key handed directly to {short(raw_reads[0], ev, 120)}", loc)
+        elif len(consumers) != 1:
+            ctx.bad(rule, construct, "sub-key consumed exactly once", f"the sub-key split(self.key)[1] is handed to {len(consumers)} consumers in this branch", loc)
+        else:
+            ctx.ok(rule, construct, f"split once; sub-key consumed by {short(consumers[0][1], ev, 60)}")
+        if "scan" in kind and len(consumers) == 1:
+            # the scan that carries the sub-key
+            construct2 = "pjax.Seed.eval_jaxpr_seed[scan].new_body"
+            sc = [(sid, rec) for sid, rec in ev.scans.items() if items(rec["init"]) and items(rec["init"])[0] == sub]
+            if len(sc) != 1:
+                ctx.bad(rule, construct2, "scan init = (fresh sub-key, carry)", "the re-issued scan does not start from (sub_key, carry)", loc)
+                continue
+            sid, rec = sc[0]
+            ckey = ("scan_carry", sid, 0)
+            co = items(rec["carry_out"])
+            xs = items(rec["xs"])
+            idx_ok = xs is not None and is_call(xs[0], name="jax.numpy.arange") and len(xs[0][2]) == 1
+            body = rec.get("body") or NONE
+            seeded = [x for x in subterms(body) if is_call(x) and is_call(x[1], name=PJ + "seed")]
+            fold = ("call", N("jax.random.fold_in"), (ckey, ("elem", sid, xs[0]) if xs else NONE), ())
+            good = co is not None and co[0] == ckey and idx_ok and len(set(seeded)) == 1 and seeded[0][2][:1] == (fold,)
+            if good:
+                ln = ev.kwget(rec["kwargs"], "length")
+                good = xs[0][2][0] == ln if ln is not None else True
+            if good:
+                ctx.ok(rule, construct2, "per-iteration key = fold_in(carried key, index from arange(length)); carried key returned unchanged")
+            else:
+                ctx.bad(rule, construct2, "per-iteration key = fold_in(carried key, scanned index); carried key unchanged",
+                        f"carry_out[0]={short(co[0], ev, 60) if co else None}; nested seed key={[short(x[2][0], ev, 100) for x in set(seeded)]}; index source={short(xs[0], ev, 60) if xs else None}", loc)
+        if "cond" in kind and len(consumers) == 1:
+            construct2 = "pjax.Seed.eval_jaxpr_seed[cond]"
+            sw = consumers[0]
+            ok = is_call(sw, name="jax.lax.switch") and len(sw[2]) >= 3 and sw[2][2] == sub
+            if ok:
+                br = sw[2][1]
+                ok = any(is_call(x, name=PJ + "seed") for x in subterms(br)) and any(x[0] == "comp" for x in subterms(br))
+                elts = [x for x in subterms(br) if x[0] == "comp"]
+                ok = ok and all(is_call(v, name=PJ + "seed") for c in elts for v in c[2])
+            if ok:
+                ctx.ok(rule, construct2, "every branch seeded and given the same fresh sub-key")
+            else:
+                ctx.bad(rule, construct2, "switch(index, seeded branches, sub_key, *operands)", f"found {short(sw, ev, 200)}", loc)
+
+
+def seed_sample_branch_events(ctx, rule="GUARD-seed-sample-branch"):
+    ev = mk_ev(ctx)
+    dotted = PJ + "Seed.eval_jaxpr_seed"
+    s = summarize(ctx, ev, dotted)
+    loc = func_loc(ctx, dotted)
+    construct = "pjax.Seed.eval_jaxpr_seed[sample]"
+    by = events_by_kind(s)
+    br = [v for k, v in by.items() if {"sample", "adev_sample"} <= k]
+    if len(br) != 1:
+        ctx.bad(rule, construct, "one branch handles sample_p and adev_sample_p", f"branches: {[sorted(k) for k in by]}", loc)
+        return
+    evs = br[0]
+    calls = [e[2] for e in evs if e[1] == "call"]
+    rebinds = [c for c in calls if c[1][0] == "attr" and c[1][2] in ("bind", "impl")]
+    if rebinds:
+        ctx.bad(rule, construct, "re-binds the primitive", f"the sampling branch calls {short(rebinds[0], ev, 120)} (reaches the keyless implementation and the global counter)", loc)
+        return
+    KEY = ("attr", SELF, "key")
+    split = ("call", N("jax.random.split"), (KEY,), ())
+    sub = ("idx", split, C(1))
+    samplers = [c for c in calls if c[1][0] == "idx" and c[1][2] == C("flat_keyful_sampler")]
+    good = len(set(samplers)) == 1 and samplers[0][2][:1] == (sub,) and len(samplers[0][2]) == 2 and samplers[0][2][1][0] == "star" \
+        and len(samplers[0][3]) == 1 and samplers[0][3][0][0] is None and samplers[0][3][0][1] == samplers[0][1][1]
+    if good:
+        # operands = subfuns + the equation's inputs read from the environment
+        ops = samplers[0][2][1][1]
+        good = any(is_call(x) and x[1][0] == "name" and x[1][1].endswith("safe_map") for x in subterms(ops))
+    if good:
+        ctx.ok(rule, construct, "no re-bind; output = inner_params['flat_keyful_sampler'](sub_key, *inputs, **inner_params)")
+    else:
+        ctx.bad(rule, construct, "outvals = flat_keyful_sampler(fresh sub-key, *args, **inner_params)", f"found {[short(c, ev, 160) for c in set(samplers)]}", loc)
+
+
+def dispatch_sets_events(ctx, rule="SIB-interpreter-dispatch"):
+    want = {"sample", "adev_sample", "cond", "scan"}
+    for cls, meth in (("Seed", "eval_jaxpr_seed"), ("ModularVmap", "eval_jaxpr_modular_vmap")):
+        ev = mk_ev(ctx)
+        dotted = PJ + cls + "." + meth
+        s = summarize(ctx, ev, dotted)
+        got = set()
+        for k in events_by_kind(s):
+            got |= (k - {"else", "common"})
+        if got == want:
+            ctx.ok(rule, f"pjax.{cls}.{meth}", f"handles {sorted(got)}")
+        else:
+            ctx.bad(rule, f"pjax.{cls}.{meth}", f"handles {sorted(got)}", f"special-cased primitives {sorted(got)} differ from {sorted(want)}", func_loc(ctx, dotted))
+
+
+def seed_fallthrough_events(ctx, rule="EXH-seed-fallthrough"):
+    ev = mk_ev(ctx)
+    dotted = PJ + "Seed.eval_jaxpr_seed"
+    s = summarize(ctx, ev, dotted)
+    by = events_by_kind(s)
+    els = by.get(frozenset({"else"}), [])
+    binds = [e for e in els if e[1] == "call" and e[2][1][0] == "attr" and e[2][1][2] == "bind"]
+    construct = "pjax.Seed.eval_jaxpr_seed[else]"
+    ctx.need(bool(binds), "Seed fall-through bind not found (anchor vanished)")
+    inspected = [e for e in els if (e[1] == "raise") or (e[1] == "call" and any(w in ts(e[2][1], ev) for w in ("jaxprs_in_params", "subjaxprs", "jaxpr_as_fun", "closed_call", "seed")))]
+    if inspected:
+        ctx.ok(rule, construct, "fall-through inspects sub-jaxprs or raises")
+    else:
+        ctx.bad(rule, construct, "unguarded eqn.primitive.bind(*args, **params)",
+                "higher-order primitives other than cond/scan (custom_jvp_call, custom_vjp_call, checkpoint/remat, closed_call, pjit evaluated eagerly) are re-bound as is: "
+                "a sampling site inside them is evaluated by the primitive's impl with the process-global counter key, silently, in an eagerly executed seed(f); "
+                "input: seed(f)(key) with f sampling inside jax.checkpoint or inside a custom_jvp function", func_loc(ctx, dotted))
+
+
+def dummy_protocol_events(ctx, rule="SIB-dummy-arg"):
+    """Writer/reader agreement on the dummy operand, decided on ModularVmap's guarded event log and on the symbolic
+    summaries of the two readers."""
+    ev = mk_ev(ctx)
+    dotted = PJ + "ModularVmap.eval_jaxpr_modular_vmap"
+    s = summarize(ctx, ev, dotted)
+    loc = func_loc(ctx, dotted)
+    by = events_by_kind(s)
+    br = [v for k, v in by.items() if {"sample", "adev_sample"} <= k]
+    construct = "pjax.ModularVmap.eval_jaxpr_modular_vmap[sample]"
+    injected = None
+    DUMMY, AXS = ("param", "dummy_arg"), ("param", "axis_size")
+    if len(br) != 1:
+        ctx.bad(rule, construct, "one branch re-binds sample_p/adev_sample_p", f"branches {[sorted(k) for k in by]}", loc)
+    else:
+        binds = list(dict.fromkeys(e[2] for e in br[0] if e[1] == "call" and e[2][1][0] == "attr" and e[2][1][2] == "bind"))
+        if len(binds) != 1:
+            ctx.bad(rule, construct, "one re-bind", f"{len(binds)} bind calls", loc)
+        else:
+            b = binds[0]
+            pos = [a for a in b[2] if a[0] != "star"]
+            stars = [a for a in b[2] if a[0] == "star"]
+            kw = dict((k, v) for k, v in b[3] if k is not None)
+            fwd = [v for k, v in b[3] if k is None]
+            params_ok = len(fwd) == 1 and any(x[0] == "attr" and x[2] == "params" for x in subterms(fwd[0]))
+            good = pos == [DUMMY] and len(stars) == 1 and kw.get("axis_size") == AXS and kw.get("ctx") == C("modular_vmap") and params_ok \
+                and any(is_call(x) and x[1][0] == "name" and x[1][1].endswith("safe_map") for x in subterms(stars[0]))
+            injected = len(pos)
+            if good:
+                ctx.ok(rule, construct, "injects 1 dummy operand, forwards the equation's operands and original params, tags ctx='modular_vmap' and axis_size")
+            else:
+                ctx.bad(rule, construct, "bind(dummy_arg, *operands, axis_size=axis_size, ctx='modular_vmap', **params)", f"found {short(b, ev, 260)}", loc)
+    injected = injected or 1
+    # reader 1: abstract rule strips the dummy aval under ctx == 'modular_vmap'
+    anode, amod = fnode(ctx, PJ + "initial_style_bind")
+    abstract = [f for f in ast.walk(anode) if isinstance(f, ast.FunctionDef) and f.name == "abstract"]
+    ctx.need(len(abstract) == 1, "initial_style_bind.abstract not found")
+    strips = [st for st in ast.walk(abstract[0]) if isinstance(st, ast.Assign) and isinstance(st.value, ast.Subscript) and isinstance(st.value.slice, ast.Slice)
+              and unp(st.targets[0]) == unp(st.value.value)]
+    guard_ok = any(isinstance(i, ast.If) and "modular_vmap" in unp(i.test) and "ctx" in unp(i.test) and any(s_ is x for x in ast.walk(i) for s_ in strips) for i in ast.walk(abstract[0]))
+    lower = [unp(st.value.slice.lower) if st.value.slice.lower is not None else "0" for st in strips]
+    if len(strips) != 1 or lower != [str(injected)] or not guard_ok or unp(strips[0].targets[0]) != abstract[0].args.vararg.arg:
+        ctx.bad(rule, "pjax.initial_style_bind.abstract", "strips the dummy aval under ctx == 'modular_vmap'", f"found {[unp(s_) for s_ in strips]} guarded={guard_ok}", ctx.loc(amod, abstract[0]))
+    else:
+        ctx.ok(rule, "pjax.initial_style_bind.abstract", f"strips {injected} leading aval under ctx == 'modular_vmap'")
+    # reader 2: the sample batch rule strips operand and axis (symbolic summary)
+    s2 = summarize(ctx, ev, PJ + "VmapBatchHandler._handle_modular_vmap")
+    VA, BA = ("param", "vector_args"), ("param", "batch_axes")
+    want = call(N(PJ + "static_dim_length"), ("rest", BA, injected), ("rest", VA, injected))
+    ok = any(x == want for x in subterms(s2.ret)) and any(x == ("star", ("rest", VA, injected)) for x in subterms(s2.ret))
+    if ok:
+        ctx.ok(rule, "pjax.VmapBatchHandler._handle_modular_vmap", f"strips {injected} leading operand and axis")
+    else:
+        ctx.bad(rule, "pjax.VmapBatchHandler._handle_modular_vmap", "strips the dummy operand and its axis",
+                f"re-bind does not use vector_args[{injected}:] / batch_axes[{injected}:]: {short(s2.ret, ev, 240)}", func_loc(ctx, PJ + "VmapBatchHandler._handle_modular_vmap"))
+    # ModularVmap.eval pairs (dummy, args) with in_axes (0, in_axes)
+    s3 = summarize(ctx, ev, PJ + "ModularVmap.eval")
+    lanes = [x for x in subterms(s3.ret) if x[0] == "lanes"]
+    ok = False
+    if lanes:
+        rec = ev.vmaps[lanes[0][1]]
+        ok = rec["which"] == "jax.vmap" and rec["in_axes"] == ("tuple", (C(0), ("param", "in_axes"))) and len(rec["args"]) == 2 and rec["args"][1] == ("param", "args")
+        f = rec["f"]
+        ok = ok and f[0] == "partial" and f[1] == N(PJ + "ModularVmap.stage_and_run") and len(f[2]) == 2 and f[2][1] == ("param", "fn")
+        want_size = ("ifexp", ("cmp", "is", ("param", "axis_size"), NONE), call(N(PJ + "static_dim_length"), ("param", "in_axes"), ("param", "args")), ("param", "axis_size"))
+        ok = ok and f[2][0] == want_size and ev.kwget(rec["opts"], "axis_size") == want_size
+    if ok:
+        ctx.ok(rule, "pjax.ModularVmap.eval", "jax.vmap(stage_and_run(axis_size, fn), in_axes=(0, in_axes))(dummy, args)")
+    else:
+        ctx.bad(rule, "pjax.ModularVmap.eval", "jax.vmap(partial(stage_and_run, axis_size, fn), in_axes=(0, in_axes), axis_size=axis_size)(dummy, args)", f"found {short(s3.ret, ev, 300)}", func_loc(ctx, PJ + "ModularVmap.eval"))
+
+
+def modular_vmap_control_flow_events(ctx, rule="ROLE-modular_vmap"):
+    ev = mk_ev(ctx)
+    s0 = summarize(ctx, ev, PJ + "modular_vmap")
+    clo = closure_in(s0.ret)
+    A = ("param", "a_")
+    ok = False
+    if clo is not None:
+        ev2 = mk_ev(ctx)
+        ev2.inline_methods_on_ctor = False
+        s0 = summarize(ctx, ev2, PJ + "modular_vmap")
+        clo = closure_in(s0.ret)
+        body = ev2.apply_closure(clo, (("star", A),), ())
+        want = ("call", ("attr", call(N(PJ + "ModularVmap")), "eval"), (("param", "in_axes"), ("param", "axis_size"), ("param", "axis_name"), ("param", "spmd_axis_name"), ("param", "f"), ("star", A)), ())
+        ok = body == want
+    if ok:
+        ctx.ok(rule, "pjax.modular_vmap.wrapped")
+    else:
+        ctx.bad(rule, "pjax.modular_vmap.wrapped", "eval(in_axes, axis_size, axis_name, spmd_axis_name, f, *args)", "wrapper plumbing changed", func_loc(ctx, PJ + "modular_vmap"))
+    dotted = PJ + "ModularVmap.eval_jaxpr_modular_vmap"
+    s = summarize(ctx, ev, dotted)
+    loc = func_loc(ctx, dotted)
+    by = events_by_kind(s)
+    DUMMY, AXS = ("param", "dummy_arg"), ("param", "axis_size")
+    run = N(PJ + "ModularVmap.stage_and_run")
+    for k, evs in by.items():
+        if "scan" in k:
+            construct = "pjax.ModularVmap[scan]"
+            sc = [(sid, rec) for sid, rec in ev.scans.items() if rec["init"][0] == "tuple" and rec["init"][1][:1] == (DUMMY,)]
+            if len(sc) != 1:
+                ctx.bad(rule, construct, "scan re-issued with the dummy threaded through the carry", "no scan starting from (dummy_arg, *carry)", loc)
+                continue
+            sid, rec = sc[0]
+            carry = ("scan_carry", sid, None)
+            d = ("idx", carry, C(0))
+            body = rec.get("body") or NONE
+            runs = list(dict.fromkeys(x for x in subterms(body) if is_call(x) and x[1] == run))
+            co = rec["carry_out"]
+            fwd = all(ev.kwget(rec["kwargs"], p_) is not None and any(y == C(p_) for y in subterms(ev.kwget(rec["kwargs"], p_))) for p_ in ("length", "reverse"))
+            good = len(runs) == 1 and runs[0][2][:1] == (AXS,) and len(runs[0][2]) == 4 and runs[0][2][2] == d and co[0] == "tuple" and co[1][:1] == (d,) and fwd
+            if good:
+                ctx.ok(rule, construct, "body re-interpreted with the same axis size and dummy; dummy carried unchanged; length/reverse forwarded")
+            else:
+                ctx.bad(rule, construct, "scan re-issued with the dummy threaded through the carry and the same length/reverse", f"found body {short(body, ev, 200)}", loc)
+        if "cond" in k:
+            construct = "pjax.ModularVmap[cond]"
+            sw = list(dict.fromkeys(e[2] for e in evs if e[1] == "call" and e[2][1] == N("jax.lax.switch")))
+            good = len(sw) == 1 and len(sw[0][2]) == 4 and sw[0][2][2] == DUMMY
+            if good:
+                brs = sw[0][2][1]
+                comps = [x for x in subterms(brs) if x[0] == "comp"]
+                good = bool(comps) and all(v[0] == "partial" and v[1] == run and v[2][:1] == (AXS,) for c in comps for v in c[2])
+            if good:
+                ctx.ok(rule, construct, "switch over re-interpreted branches with the same axis size and dummy")
+            else:
+                ctx.bad(rule, construct, "switch(index, re-interpreted branches, dummy_arg, operands)", f"found {[short(x, ev, 200) for x in sw]}", loc)
